@@ -116,6 +116,14 @@ def publish_dispatch(fn):
     return [last]
 
 
+def frame_check(fn, body):
+    """nothing outside the translated statements of the method may touch the stores or the counter"""
+    inside = {id(n) for s in body for n in ast.walk(s)}
+    for n in ast.walk(fn):
+        if isinstance(n, ast.Attribute) and n.attr in STORE_ATTRS and id(n) not in inside:
+            raise Untranslatable(f"line {n.lineno}: self.{n.attr} is used outside the translated fragment")
+
+
 # ------------------------------------------------------------------------------------------------ fragments
 MAX = ("max", "Z", "self._max_inflight_messages")
 SOCK = ("sock", "bool", "sock")               # self._sock is not None (read by _send_publish)
@@ -303,6 +311,18 @@ def generate(repo):
         consts, tree = None, None
         problems.append(("msgstate:source", f"translator error {type(e).__name__}: {e}"))
 
+    # constants the bridge file mentions by name are emitted whether or not a fragment happens to use them
+    always = ("MQTT_ERR_SUCCESS", "MQTT_ERR_NO_CONN", "MQTT_ERR_QUEUE_SIZE", "MQTTv5", "MQTT_CLEAN_START_FIRST_ONLY")
+    missing = []
+    for name in always:
+        try:
+            if consts is None or consts.lookup(ast.Name(id=name)) is None:
+                missing.append(name)
+        except Untranslatable:
+            missing.append(name)
+    if missing:
+        problems.append(("msgstate:constants", "not found or ambiguous: " + ", ".join(missing)))
+
     ignored = collections.OrderedDict()
     registry = {}
     defs = []
@@ -317,7 +337,9 @@ def generate(repo):
         try:
             if tree is None:
                 raise Untranslatable("source not parsed")
-            body = spec["slice"](leaf.find_function(tree, spec["qual"]))
+            fn = leaf.find_function(tree, spec["qual"])
+            body = spec["slice"](fn)
+            frame_check(fn, body)
             text = fr.translate(body)
         except Untranslatable as e:
             problems.append((f"msgstate:{spec['qual']}", str(e)))
@@ -354,9 +376,10 @@ def generate(repo):
         for name, v in consts.used.items():
             if name not in emitted:
                 out += f"Definition {name} : Z := {v if v >= 0 else f'({v})'}.\n"
-    else:
-        for name in ("MQTT_ERR_SUCCESS", "MQTT_ERR_NO_CONN"):
-            out += f"Definition {name} : Z := (-1).\n"
+                emitted.add(name)
+    for name in missing:
+        if name not in emitted:
+            out += f"Definition {name} : Z := (-1).   (* not found in the source *)\n"
     out += "\nDefinition st_code (s : mstate) : Z :=\n  match s with\n"
     for py, ctor in ms.STATE_CTORS.items():
         out += f"  | {ctor} => {py}\n"
